@@ -3,6 +3,8 @@
   SELFTEST  single-instance mutants / twins written with the rules (selftest.py)
   SEEDED    every kept seeded change (written by independent sub-agents, /verif/seeded/<id>/patch.diff) that this
             property's check is recorded to report is re-applied to a scratch copy and must be reported again
+  REFACTORED every kept behaviour-preserving refactoring of this property's code (written by independent sub-agents,
+            /verif/refactored/<id>/patch.diff) is re-applied to a scratch copy and must not be reported
   PROBE     behaviour-preserving variants of the functions the rules consult (one local renamed; if/else swapped,
             comparisons flipped, temporaries introduced, ...) must not produce a VIOLATION
 
@@ -48,6 +50,36 @@ def seeded_replay(pid):
     import multiprocessing as mp_
     with mp_.Pool(min(16, len(jobs))) as pool:
         return pool.map(_seed_one, jobs)
+
+
+def _ref_one(job):
+    pid, rid = job
+    d = _scratch()
+    try:
+        p = subprocess.run(['patch', '-s', '-p1', '-i', os.path.join(VERIF, 'refactored', rid, 'patch.diff')], cwd=d,
+                           stdout=subprocess.PIPE, stderr=subprocess.STDOUT, text=True)
+        if p.returncode != 0: return (rid, 'skipped', 'patch does not apply to the current tree')
+        from .__main__ import run_check
+        buf = io.StringIO()
+        with contextlib.redirect_stdout(buf):
+            code = run_check(pid, 'quick', root=d, write=False)
+        if code == 1:
+            hit = sorted(set(l.strip()[:120] for l in buf.getvalue().splitlines() if 'violated: [' in l))
+            return (rid, 'FALSE-ALARM', '; '.join(hit[:2]))
+        return (rid, 'ok', 'silent' if code == 0 else 'undecided (exit 2)')
+    finally:
+        shutil.rmtree(d, ignore_errors=True)
+
+
+def refactoring_replay(pid):
+    """the kept behaviour-preserving refactorings of this property's code (refactored/<pid>_R*) must not be reported"""
+    base = os.path.join(VERIF, 'refactored')
+    jobs = [(pid, rid) for rid in sorted(os.listdir(base))] if os.path.isdir(base) else []
+    jobs = [j for j in jobs if j[1].startswith(pid + '_') and os.path.exists(os.path.join(base, j[1], 'patch.diff'))]
+    if not jobs: return []
+    import multiprocessing as mp_
+    with mp_.Pool(min(16, len(jobs))) as pool:
+        return pool.map(_ref_one, jobs)
 
 
 def probes(pid):
